@@ -64,7 +64,8 @@ Fixpoint enter (s : sel) (fr : list frame) : list thr :=
       | [] => []
       | f :: rest =>
           if exhausted (fr_lim f) then []
-          else enter0 (fr_seq f) ({| fr_seq := fr_seq f; fr_lim := lim_pred (fr_lim f); fr_stop := fr_stop f |} :: rest)
+          else let fr' := {| fr_seq := fr_seq f; fr_lim := lim_pred (fr_lim f); fr_stop := fr_stop f |} :: rest in
+               or_nop fr' (enter0 (fr_seq f) fr')
       end
   | _ => [Thr s fr]
   end.
